@@ -34,16 +34,18 @@ show_mid :: (x: Mid) {
 
 SETUP = '''t1 := In.{ v = 1, w = i32.[2, 3] };
 t2 := In.{ v = 4, w = i32.[5, 6] };
+t3 := In.{ v = 40, w = i32.[41, 42] };
 lm := Mid.{ i = In.{ v = 7, w = i32.[8, 9] }, a = In.[In.{ v = 10, w = i32.[11, 12] }, In.{ v = 13, w = i32.[14, 15] }], pm = ^mut t1, pi = ^t2, o = In.{ v = 16, w = i32.[17, 18] }, ap = .[^t2], am = .[^mut t1] };'''
 
 
 def fresh_mem():
     t1 = {"v": 1, "w": [2, 3]}
     t2 = {"v": 4, "w": [5, 6]}
+    t3 = {"v": 40, "w": [41, 42]}
     lm = {"i": {"v": 7, "w": [8, 9]}, "a": [{"v": 10, "w": [11, 12]}, {"v": 13, "w": [14, 15]}],
           "pm": ("ptr", t1, True), "pi": ("ptr", t2, False), "o": ["some", {"v": 16, "w": [17, 18]}],
           "ap": [("ptr", t2, False)], "am": [("ptr", t1, True)]}
-    return t1, t2, lm
+    return t1, t2, lm, t3
 
 
 def leaves_in(x):
@@ -128,6 +130,12 @@ ROOTS = [
     # pointers to arrays of pointers: the array is indexed *through* the pointer (auto-deref), then the element is dereferenced
     Root("ptrmut-to-array-of-ptr", "PMAPIn", "pap", True, "pap := ^mut lm.ap;"),
     Root("ptr-to-array-of-ptrmut", "PAPMIn", "pam", True, "pam := ^lm.am;"),
+    # pointers to a struct as the place itself: rebinding the pointer variable / taking ^mut of it
+    Root("ptrIn-by-mut", "PMIn", "qa", True, "qa := ^mut t1;"),
+    Root("ptrIn-by-const", "PMIn", "qc", False, "qc :: ^mut t1;"),
+    Root("ptrIn-annotated-const", "PMIn", "qd", False, "qd : ^mut In : ^mut t1;"),
+    Root("ptrIn-annotated-mut", "PMIn", "qe", True, "qe : ^mut In = ^mut t1;"),
+    Root("ptrIn-param", "PMIn", "qp", False, None, in_helper=("qp: ^mut In", "^mut t1")),
     Root("param-ptrmut-to-array-of-ptr", "PMAPIn", "pq2", False, None, in_helper=("pq2: ^mut [1]^In", "^mut lm.ap")),
 ]
 
@@ -194,8 +202,16 @@ def _ident_place(obj):
     return _Whole(obj), 0
 
 
+def rootval_holder(cont, key, steps, rootval):
+    """the struct a PMIn root variable points at after the operation (the variable may have been rebound)"""
+    if not steps:
+        cur = cont[key]
+        return cur[1] if isinstance(cur, tuple) else rootval[1]
+    return rootval[1]
+
+
 def make_case(root, steps, final_ty, op, paren_at, idx):
-    t1, t2, lm = fresh_mem()
+    t1, t2, lm, t3 = fresh_mem()
     # root value in the model
     if root.ty == "Mid":
         if root.name == "local-mut":
@@ -204,6 +220,8 @@ def make_case(root, steps, final_ty, op, paren_at, idx):
             rootval = copy_mid(lm)  # `lc :: lm` and a value parameter are copies
     elif root.ty == "In":
         rootval = {"v": 71, "w": [72, 73]}
+    elif root.ty == "PMIn":
+        rootval = ("ptr", t1, True)
     elif root.ty == "PMAPIn":
         rootval = ("ptr", lm["ap"], True)
     elif root.ty == "PAPMIn":
@@ -215,28 +233,33 @@ def make_case(root, steps, final_ty, op, paren_at, idx):
     if not judged:
         return None
     lit, val = NEW.get(final_ty, (None, None))
+    if final_ty == "PMIn":
+        # rebinding a `^mut In` place to the third pointee (inside a helper the pointee comes in as a parameter)
+        lit, val = ("t3p" if root.in_helper else "^mut t3"), ("ptr", t3, True)
     stmts = []
     if op == "assign":
         stmts.append(f"{place} = {lit};")
         ok = writable
         if ok:
-            cont[key] = copy.deepcopy(val)
+            cont[key] = val if final_ty == "PMIn" else copy.deepcopy(val)
     elif op == "compound":
         stmts.append(f"{place} += 1;")
         ok = writable
         if ok:
             cont[key] = cont[key] + 1
     elif op == "ref":
-        stmts.append(f"rq := ^({place}); pr(i64.(rq{'^' if final_ty == 'i32' else '.v' if final_ty == 'In' else '[1]' if final_ty == 'AI' else '[1].v'}));")
+        stmts.append(f"rq := ^({place}); pr(i64.(rq{'^' if final_ty == 'i32' else '.v' if final_ty == 'In' else '[1]' if final_ty == 'AI' else '^.v' if final_ty == 'PMIn' else '[1].v'}));")
         ok = True
     else:  # refmut: take ^mut and write through it
-        sel = {"i32": "^", "In": ".v", "AI": "[1]", "AIn": "[1].v"}[final_ty]
-        stmts.append(f"mq := ^mut ({place}); mq{sel} = 55;")
+        sel = {"i32": "^", "In": ".v", "AI": "[1]", "AIn": "[1].v", "PMIn": "^"}[final_ty]
+        stmts.append(f"mq := ^mut ({place}); mq{sel} = {lit if final_ty == 'PMIn' else 55};")
         ok = writable
         if ok:
             cur = cont[key]
             if final_ty == "i32":
                 cont[key] = 55
+            elif final_ty == "PMIn":
+                cont[key] = val
             elif final_ty == "In":
                 cur["v"] = 55
             elif final_ty == "AI":
@@ -246,7 +269,7 @@ def make_case(root, steps, final_ty, op, paren_at, idx):
     out = []
     if op == "ref":
         cur = cont[key]
-        out.append(cur if final_ty == "i32" else cur["v"] if final_ty == "In" else cur[1] if final_ty == "AI" else cur[1]["v"])
+        out.append(cur if final_ty == "i32" else cur["v"] if final_ty == "In" else cur[1] if final_ty == "AI" else cur[1]["v"] if final_ty == "PMIn" else cur[1]["v"])
     # observation: the root copy (if it is one), lm, t1, t2
     obs = []
     if root.name == "local-const":
@@ -255,19 +278,23 @@ def make_case(root, steps, final_ty, op, paren_at, idx):
     elif root.name == "param-value":
         obs.append("show_mid(pp);")
         out += leaves_mid(rootval)
+    if root.ty == "PMIn":
+        # where the pointer variable points now
+        obs.append(f"show_in({root.expr}^);")
+        out += leaves_in(rootval_holder(cont, key, steps, rootval))
     decls = ""
     body = [SETUP]
-    tail_obs = "show_mid(lm); show_in(t1); show_in(t2); show_in(gg);"
+    tail_obs = "show_mid(lm); show_in(t1); show_in(t2); show_in(t3); show_in(gg);"
     if root.in_helper:
         param, arg = root.in_helper
-        decls = f"h_{idx} :: ({param}) {{\n" + "\n".join(stmts + obs) + "\n}"
-        body.append(f"h_{idx}({arg});")
+        decls = f"h_{idx} :: ({param}, t3p: ^mut In) {{\n" + "\n".join(stmts + obs) + "\n}"
+        body.append(f"h_{idx}({arg}, ^mut t3);")
     else:
         if root.bind:
             body.append(root.bind)
         body += stmts + obs
     body.append(tail_obs)
-    out += leaves_mid(lm) + leaves_in(t1) + leaves_in(t2) + [71, 72, 73]
+    out += leaves_mid(lm) + leaves_in(t1) + leaves_in(t2) + leaves_in(t3) + [71, 72, 73]
     key_s = f"{root.name}/{op}/{place}"
     if ok:
         return Case(key_s, "\n".join(body), "".join(f"{v} " for v in out), decls=decls, meta={"writable": writable})
@@ -280,14 +307,14 @@ def gen(quick):
     maxlen = 3 if quick else 4
     for root in ROOTS:
         for steps, fty in paths(root.ty, maxlen):
-            if fty not in NEW:
+            if fty not in NEW and fty != "PMIn":
                 continue
             if not steps and root.ty != "In":
                 pass
             ops = ["assign", "ref", "refmut"] + (["compound"] if fty == "i32" else [])
             if not steps:
                 # the bare root: only value roots of a struct type
-                if root.ty not in ("Mid", "In"):
+                if root.ty not in ("Mid", "In", "PMIn"):
                     continue
             if root.ty in ("PMAPIn", "PAPMIn") and maxlen == 3:
                 pass
